@@ -1487,10 +1487,13 @@ htp_status_t htp_tx_state_response_headers(htp_tx_t *tx) {
                     }
                 }
 
-                if ((tok_len + 1) >= input_len)
+                // get_token() skips the separators in front of the token: go on
+                // behind the token it returned, not tok_len bytes from where it started.
+                size_t used = (size_t) (tok - input) + tok_len + 1;
+                if (used >= input_len)
                     break;
-                input += (tok_len + 1);
-                input_len -= (tok_len + 1);
+                input += used;
+                input_len -= used;
             }
         }
     } else if (tx->response_content_encoding_processing != HTP_COMPRESSION_NONE) {
